@@ -6,6 +6,13 @@ import (
 	"math"
 
 	geom "github.com/twpayne/go-geom"
+	"github.com/twpayne/go-geom/encoding/ewkb"
+	"github.com/twpayne/go-geom/encoding/ewkbhex"
+	"github.com/twpayne/go-geom/encoding/geojson"
+	"github.com/twpayne/go-geom/encoding/wkbhex"
+	"github.com/twpayne/go-geom/encoding/wkb"
+	"github.com/twpayne/go-geom/encoding/wkbcommon"
+	"github.com/twpayne/go-geom/encoding/wkt"
 
 	"verifharness/fw"
 	"verifharness/model"
@@ -208,3 +215,41 @@ func (a snapshot) diff(b snapshot) string {
 }
 
 func pickLayout(r *fw.Rand, ls []geom.Layout) geom.Layout { return ls[r.Intn(len(ls))] }
+
+// codecNoise makes a few encoder calls with non-default options on an
+// unrelated geometry.  Options are per call: a later call without them must
+// behave as if these had never happened.
+func codecNoise(c *fw.Ctx) {
+	r := c.R
+	g := geom.NewLineStringFlat(geom.XY, []float64{1.23456789, 2.5, -3.000001, 4.75})
+	d := r.Intn(4)
+	c.Guard("panic", func() {
+		switch r.Intn(6) {
+		case 4, 5:
+			// calls that fail part-way: an encoder must not carry what it had
+			// already produced for them into a later call
+			bad := geom.NewLineStringFlat(geom.Layout(5), []float64{1, 2, 3, 4, 5, 6, 7, 8, 9, 10})
+			badGC := geom.NewGeometryCollection().MustPush(geom.NewPointFlat(geom.XY, []float64{1, 2}), bad)
+			ewkb.Marshal(bad, ewkb.NDR)
+			ewkb.Marshal(badGC, ewkb.XDR)
+			ewkbhex.Encode(badGC, ewkbhex.NDR)
+			wkb.Marshal(badGC, wkb.NDR)
+			wkb.Marshal(geom.NewMultiPointFlat(geom.XY, []float64{1, 2}, geom.NewMultiPointFlatOptionWithEnds([]int{2, 2})), wkb.XDR) // empty member: error mode rejects it
+			wkbhex.Encode(badGC, wkbhex.XDR)
+			wkt.Marshal(badGC)
+			geojson.Marshal(badGC)
+			(&ewkb.GeometryCollection{GeometryCollection: badGC}).Value()
+			(&wkb.GeometryCollection{GeometryCollection: badGC}).Value()
+		case 0:
+			wkt.Marshal(g, wkt.EncodeOptionWithMaxDecimalDigits(d))
+		case 1:
+			wkt.NewEncoder(wkt.EncodeOptionWithMaxDecimalDigits(d)).Encode(g)
+		case 2:
+			geojson.Marshal(g, geojson.EncodeGeometryWithMaxDecimalDigits(d), geojson.EncodeGeometryWithBBox())
+		default:
+			geojson.Marshal(g, geojson.EncodeGeometryWithBBox())
+			wkb.Marshal(geom.NewPointEmpty(geom.XY), wkb.NDR, wkbcommon.WKBOptionEmptyPointHandling(wkbcommon.EmptyPointHandlingNaN))
+		}
+	})
+	c.Count("calls_with_other_options_interleaved")
+}
